@@ -54,3 +54,8 @@ Definition P_C17_bounds (cfg : rconfig) (maxpkt maxblk : N) (r : recv) : bool :=
    have allocated within that limit *)
 Definition P_C17_heap_cfg (nobj nfdt cache maxpkt maxblk : N) (heap : Z) : bool :=
   (heap <=? Z.of_N ((nobj + nfdt) * (4 * (cache + maxpkt + 2 * maxblk) + (cache / N.max 1 maxblk + 3) * 20000 + 8192) + 32768))%Z.
+
+(* cleanup after the time-outs: the receiver may keep at most the objects the time-out rule leaves
+   (an object is released when no packet of ITS OWN arrived for longer than the object time-out;
+   [expected_left] is computed by the model from the idle times measured around the calls) *)
+Definition P_C17_cleanup_releases (expected_left impl_left : N) : bool := impl_left <=? expected_left.
